@@ -47,7 +47,7 @@ def instantiate_code(symbol, code, inject={}):
 
 
 dispatch_template = """
-def __WRAP_DISPATCH__(OVLD):
+def __WRAP_DISPATCH__({ovld}):
     def __DISPATCH__({args}):
         {body}
 
@@ -56,7 +56,7 @@ def __WRAP_DISPATCH__(OVLD):
 
 
 call_template = """
-{mvar} = OVLD.map[({lookup})]
+{mvar} = {ovld}.map[({lookup})]
 return {mvar}({posargs})
 """
 
@@ -97,13 +97,19 @@ def generate_dispatch(ov, arganal):
     for name in spr + spo + pr + po + kr + ko:
         ndb.register(name)
 
+    # The names the entry point uses for itself stay clear of the parameters,
+    # which are called what the user called them
     mv = ndb.gensym(desired_name="method")
+    OVLD = ndb.gensym(desired_name="OVLD")
+    KWARGS = ndb.gensym(desired_name="KWARGS")
+    TARGS = ndb.gensym(desired_name="TARGS")
+    MISSING_ = ndb.gensym(desired_name="MISSING")
 
     for name in spr + spo:
         if name in spr:
             args.append(name)
         else:
-            args.append(f"{name}=MISSING")
+            args.append(f"{name}={MISSING_}")
         posargs.append(name)
         lookup.append(f"{lookup_for(i)}({name})")
         i += 1
@@ -119,7 +125,7 @@ def generate_dispatch(ov, arganal):
         if name in pr:
             args.append(name)
         else:
-            args.append(f"{name}=MISSING")
+            args.append(f"{name}={MISSING_}")
         posargs.append(name)
         lookup.append(f"{lookup_for(i)}({name})")
         i += 1
@@ -136,14 +142,14 @@ def generate_dispatch(ov, arganal):
         lookup.append(f"({name!r}, {lookup_for(name)}({name}))")
 
     for name in ko:
-        args.append(f"{name}=MISSING")
-        kwargsstar = "**KWARGS"
-        targsstar = "*TARGS"
-        inits.add("KWARGS = {}")
-        inits.add("TARGS = []")
-        body.append(f"if {name} is not MISSING:")
-        body.append(f"    KWARGS[{name!r}] = {name}")
-        body.append(f"    TARGS.append(({name!r}, {lookup_for(name)}({name})))")
+        args.append(f"{name}={MISSING_}")
+        kwargsstar = f"**{KWARGS}"
+        targsstar = f"*{TARGS}"
+        inits.add(f"{KWARGS} = {{}}")
+        inits.add(f"{TARGS} = []")
+        body.append(f"if {name} is not {MISSING_}:")
+        body.append(f"    {KWARGS}[{name!r}] = {name}")
+        body.append(f"    {TARGS}.append(({name!r}, {lookup_for(name)}({name})))")
 
     posargs.append(kwargsstar)
     lookup.append(targsstar)
@@ -152,6 +158,7 @@ def generate_dispatch(ov, arganal):
         lookup=join(lookup, trail=True),
         posargs=join(posargs),
         mvar=mv,
+        ovld=OVLD,
     )
 
     calls = []
@@ -167,18 +174,20 @@ def generate_dispatch(ov, arganal):
                 lookup=join(lookup[: req + i] + kwlookup, trail=True),
                 posargs=join(posargs[: req + i + 1] + kwposargs),
                 mvar=mv,
+                ovld=OVLD,
             )
             call = textwrap.indent(call, "        ")
-            calls.append(f"\nif {arg} is MISSING:{call}")
+            calls.append(f"\nif {arg} is {MISSING_}:{call}")
     calls.append(fullcall)
 
     lines = [*inits, *body, textwrap.indent("".join(calls), "        ")]
     code = dispatch_template.format(
         args=join(args),
         body=join(lines, sep="\n        ").lstrip(),
+        ovld=OVLD,
     )
     wr = instantiate_code(
-        "__WRAP_DISPATCH__", code, inject={"MISSING": MISSING, **ndb.variables}
+        "__WRAP_DISPATCH__", code, inject={MISSING_: MISSING, **ndb.variables}
     )
     return wr(ov)
 
